@@ -12,8 +12,10 @@ import (
 	gometrics "github.com/rcrowley/go-metrics"
 
 	"github.com/platinummonkey/go-concurrency-limits/core"
+	"github.com/platinummonkey/go-concurrency-limits/limit"
 	ddreg "github.com/platinummonkey/go-concurrency-limits/metric_registry/datadog"
 	gmreg "github.com/platinummonkey/go-concurrency-limits/metric_registry/gometrics"
+	"github.com/platinummonkey/go-concurrency-limits/strategy"
 )
 
 // ---------------- C20 (limits): every processed sample emits its RTT and in-flight once, the drop counter iff it was a drop ----------------
@@ -301,4 +303,121 @@ func TestC20Registry(t *testing.T) {
 			rep.Notes = append(rep.Notes, fmt.Sprintf("datadog: statsd lines seen on loopback: gauge %d distribution %d", gaugeLines, distLines))
 		}
 	}()
+}
+
+// ---- metric names: every limit name (the empty one, one ending in a dot, dotted ones) yields its own prefixed identifiers ----
+type idRegistry struct {
+	ids   []string             // every identifier registered, in order
+	vals  map[string][]float64 // samples per identifier
+	gauge map[string]core.MetricSupplier
+}
+type idListener struct {
+	r  *idRegistry
+	id string
+}
+
+func (l idListener) AddSample(v float64, tags ...string) { l.r.vals[l.id] = append(l.r.vals[l.id], v) }
+func (r *idRegistry) reg(id string) core.MetricSampleListener {
+	r.ids = append(r.ids, id)
+	return idListener{r, id}
+}
+func (r *idRegistry) RegisterDistribution(id string, tags ...string) core.MetricSampleListener {
+	return r.reg(id)
+}
+func (r *idRegistry) RegisterTiming(id string, tags ...string) core.MetricSampleListener {
+	return r.reg(id)
+}
+func (r *idRegistry) RegisterCount(id string, tags ...string) core.MetricSampleListener {
+	return r.reg(id)
+}
+func (r *idRegistry) RegisterGauge(id string, s core.MetricSupplier, tags ...string) {
+	r.ids = append(r.ids, id)
+	if _, dup := r.gauge[id]; !dup {
+		r.gauge[id] = s // the bundled registries keep the first gauge registered under an identifier
+	}
+}
+func (r *idRegistry) Start() {}
+func (r *idRegistry) Stop()  {}
+
+func TestC20Names(t *testing.T) {
+	rep := NewReport("C20names")
+	defer rep.Write(t)
+	for _, name := range []string{"", "svc", "svc.", "a.b", "default", "x"} {
+		prefix := name + "."
+		if name == "" {
+			prefix = "default."
+		} else if strings.HasSuffix(name, ".") {
+			prefix = name
+		}
+		for kind := 0; kind < 5; kind++ {
+			reg := &idRegistry{vals: map[string][]float64{}, gauge: map[string]core.MetricSupplier{}}
+			st := strategy.NewSimpleStrategyWithMetricRegistry(7, reg)
+			nStrat := len(reg.ids)
+			stratIDs := map[string]bool{}
+			for _, id := range reg.ids {
+				stratIDs[id] = true
+			}
+			var l core.Limit
+			switch kind {
+			case 0:
+				l = limit.NewAIMDLimit(name, 10, 0.9, 1, reg)
+			case 1:
+				l = limit.NewVegasLimitWithRegistry(name, 20, nil, 100, 1.0, nil, nil, nil, nil, nil, 30, nil, reg)
+			case 2:
+				l = limit.NewGradientLimitWithRegistry(name, 20, 1, 100, 0.2, nil, 2.0, -1, nil, reg)
+			case 3:
+				l, _ = limit.NewGradient2Limit(name, 20, 100, 4, nil, 0.2, 100, nil, reg)
+			default:
+				l = limit.NewSettableLimit(name, 10, reg)
+			}
+			kn := []string{"aimd", "vegas", "gradient", "gradient2", "settable"}[kind]
+			fail := func(sig, d string) {
+				rep.Violate(kn+":"+sig, fmt.Sprintf("%s (limit name %q)", d, name), map[string]interface{}{"component": "metric-names", "limit": kn, "name": name, "registered": reg.ids})
+			}
+			rep.Evaluations++
+			rep.Distinct("named-limit", fmt.Sprint(kind, name))
+			for _, id := range reg.ids[nStrat:] {
+				if !strings.HasPrefix(id, prefix) || strings.Contains(id[len(prefix):], "..") || id[len(prefix):] == "" {
+					fail("metric-id", fmt.Sprintf("metric registered as %q, expected the form %q + metric", id, prefix))
+				}
+				if stratIDs[id] {
+					fail("metric-id-collision", fmt.Sprintf("the limit registers %q, the identifier the strategy on the same registry already uses", id))
+				}
+			}
+			// one sample: RTT and in-flight once each under the limit's identifiers, the drop counter iff it was a drop; the strategy's stay its own
+			if kind == 4 {
+				continue
+			}
+			for i, drop := range []bool{false, true} {
+				before := map[string]int{}
+				for k, v := range reg.vals {
+					before[k] = len(v)
+				}
+				l.OnSample(int64(i)*1000, 12345, 3, drop)
+				got := func(id string) []float64 { return reg.vals[id][before[id]:] }
+				if v := got(prefix + core.MetricRTT); len(v) != 1 || v[0] != 12345 {
+					fail("rtt-emission", fmt.Sprintf("sample with RTT 12345: %q received %v", prefix+core.MetricRTT, v))
+				}
+				if v := got(prefix + core.MetricInFlight); len(v) != 1 || v[0] != 3 {
+					fail("inflight-emission", fmt.Sprintf("sample with 3 in flight: %q received %v", prefix+core.MetricInFlight, v))
+				}
+				if v := got(prefix + core.MetricDropped); (len(v) == 1) != drop {
+					fail("drop-emission", fmt.Sprintf("drop=%v: %q received %v", drop, prefix+core.MetricDropped, v))
+				}
+				if v := got(core.MetricInFlight); len(v) != 0 {
+					fail("metric-id-collision", fmt.Sprintf("a limit sample was recorded under the strategy's %q: %v", core.MetricInFlight, v))
+				}
+			}
+			if sup, ok := reg.gauge[prefix+core.MetricLimit]; !ok {
+				fail("limit-gauge", fmt.Sprintf("no gauge %q", prefix+core.MetricLimit))
+			} else if v, _ := sup(); int(v) != l.EstimatedLimit() {
+				fail("limit-gauge", fmt.Sprintf("gauge %q reports %v, the limit estimates %d", prefix+core.MetricLimit, v, l.EstimatedLimit()))
+			}
+			if sup, ok := reg.gauge[core.MetricLimit]; ok {
+				if v, _ := sup(); int(v) != st.GetLimit() {
+					fail("limit-gauge", fmt.Sprintf("the strategy's gauge %q reports %v, the strategy enforces %d", core.MetricLimit, v, st.GetLimit()))
+				}
+			}
+		}
+	}
 }
